@@ -398,6 +398,10 @@ func inlineFile(p *packages.Package, f *ast.File, src []byte, uniq *int, counts 
 	}
 	visitStmts = func(list []ast.Stmt) {
 		for _, st := range list {
+			if bs, isBlock := st.(*ast.BlockStmt); isBlock {
+				visitStmts(bs.List)
+				continue
+			}
 			if handle(st) {
 				continue
 			}
